@@ -122,13 +122,47 @@ CLAIMS["C20"] = ("proof",
    TRUST + "(Hasher).Hash / jmphasher.Hash (0 <= result < n, function of (key,n)) and cluster.partition (fnv) are trusted contracts; string < is an uninterpreted strict total order.",
    "contract-based deductive verification, SMT")
 
+BC = ("BOUNDED stand-in rcheck/cluster (labelled bounded, never counted as proved): real cluster/syncer/API code on enumerated small clusters. ")
+CLAIMS.update({
+ "C11": ("exploration",
+   "BOUNDED ONLY - mergeBlock and the syncer are map/closure/RPC code outside the generator's subset. " + BC +
+   "mergeBlock: exhaustive for 2 positions x 1..5 replicas and 3 positions x 2..4 replicas plus seeded random cases over standard/time/bsi fragments and blocks 0,1,3: the local block and every replica after applying its diffs equal the per-bit majority (ties set), nothing outside the block changes. "
+   "Complete SyncHolder passes over 2..5 in-process replicas with a routed fake client: every fragment of every replica equals the majority, repairs land in the view they were computed for, checksums agree afterwards.",
+   "bounded exploration; the oracle is a hand-written majority model; nothing here is a proof.", "bounded stand-in"),
+ "C21": ("exploration",
+   "BOUNDED ONLY - resize planning (fragSources, resize job generation) is map/closure graph code outside the subset. " + BC +
+   "Clusters of 1-6 nodes, replicaN 0..5, two schemas, random available shards, every single add and remove: every (node,index,field,view,shard) newly owned has a source that owned it before and is not the removed node; a refusal only when some need has no surviving owner.",
+   "bounded exploration; nothing here is a proof.", "bounded stand-in"),
+ "C23": ("exploration",
+   "BOUNDED/EXHAUSTIVE ENUMERATION - the admission table is a package-level map consulted through API.validate: all 25 apiMethod constants x 4 cluster states are enumerated against the table in the property statement (exhaustive for that finite domain), and 27 exported API entry points are called on an API with nil holder/server in STARTING and RESIZING to show they refuse before touching data. Not a deductive proof: that every future entry point calls validate first is not shown.",
+   "exhaustive over the finite decision table; entry-point coverage is by enumeration of the existing methods.", "exhaustive enumeration (bounded stand-in)"),
+})
+CLAIMS["C18"] = ("exploration",
+   "BOUNDED ONLY - calendar arithmetic goes through time.Time, outside the generator's subset. rcheck/timeq: for every valid quantum and seeded pairs of aligned instants from a boundary-heavy grid, the views of viewsByTimeRange are disjoint and cover exactly [start,end); "
+   "timeOfView maps every year/month/day/hour view name of 1970-2040 (+ far years) back to the interval its digits denote; viewsByTime names the enclosing interval per unit. " + BP,
+   "bounded exploration; nothing here is a proof.", "bounded stand-in")
+CLAIMS["C20"] = (CLAIMS["C20"][0], CLAIMS["C20"][1] + " BOUNDED addition: " + BC + "owner lists for 1-6 nodes in every join order, replicaN 0..7: size, distinctness, join-order independence, and agreement of every ownership call site (ownsShard, containsShards, shardsByNode, validateShardOwnership, the cleaner and the syncer) with the owner list.", CLAIMS["C20"][2], CLAIMS["C20"][3] + " + bounded stand-in")
+
+CLAIMS.update({
+ "C24": ("exploration",
+   "BOUNDED ONLY - the translate store is file/goroutine code outside the subset. rcheck/stores: the real TranslateFile over 5 namespaces with adversarial keys (empty, Unicode, invalid UTF-8, NUL, 4-70 KB, repeats within a batch, bursts that grow the hash table), forward/reverse translation, close+reopen, one real replica fed through a reader cut at and inside entry boundaries and resumed; against a map model: ids positive, stable, distinct per namespace, reverse returns the key, unchanged after reopen, replica identical. Sequential only (the property's concurrent clause is not exercised).",
+   "bounded exploration; nothing here is a proof.", "bounded stand-in"),
+ "C26": ("exploration",
+   "BOUNDED ONLY - the PEG parser is generated table code outside the subset. rcheck/pqlfmt: query text generated from the grammar together with the intended AST (all call forms, both quote styles with escapes and arbitrary Unicode, int64 extremes, floats, booleans, null, lists, conditions, timestamps): ParseString must return exactly that AST (Go types included); every parsed call is key-translated the way the executor does it, printed with String() and re-parsed: the result must mean the same.",
+   "bounded exploration; nothing here is a proof.", "bounded stand-in"),
+ "C27": ("exploration",
+   "BOUNDED ONLY - the serializer is a large type switch over generated protobuf code. rcheck/wire: for all 28 Serializer message types and all 10 query result kinds, random values (empty/nil/boundary fields) are Marshal-ed and Unmarshal-ed and every exported field compared by reflection (nil == empty slice/map); Unmarshal is fed empty, random, truncated and bit-flipped bytes and must not panic. Two open findings (IndexInfo.Options / ShardWidth missing from the protobuf schema) are listed in known_findings.json and printed as KNOWN-FINDING.",
+   "bounded exploration; nothing here is a proof.", "bounded stand-in"),
+})
+BR = ("BOUNDED addition rcheck/roaring (labelled bounded, never counted as proved): model-based execution of the real Bitmap API against a set model over 15 construction flavours (slice/B-tree, optimized, mapped, frozen, cloned, imported, official-decoded ...) and boundary-heavy container keys/contents: every read, 24 set operations over all 9 container-type pairs, random mutation histories with all reads re-compared after each step, isolation of derived values, encode/decode round trips incl. a hand-written official-format encoder, op-log replay. ")
+for _k in ("C01", "C02", "C03", "C04", "C05"):
+    CLAIMS[_k] = (CLAIMS[_k][0], CLAIMS[_k][1] + " " + BR, CLAIMS[_k][2], CLAIMS[_k][3] + " + bounded stand-in")
+CLAIMS["C25"] = (CLAIMS["C25"][0], CLAIMS["C25"][1] + " BOUNDED addition rcheck/stores: the real boltdb attribute store (standalone and through SetRowAttrs/SetColumnAttrs) under random SetAttrs/SetBulkAttrs histories, caller-side mutation of passed and returned maps, reopen, Blocks/BlockData/IndexAttrDiff, against a map model.", CLAIMS["C25"][2], CLAIMS["C25"][3] + " + bounded stand-in")
+
 NA = {
  "C08": "restart behaviour is an I/O history over the data directory (boltdb, files, protobuf meta); no per-call contract within the generator's subset expresses it, and no bounded stand-in was built",
  "C09": "crash points are positions in a file-system history, not a per-call notion; contract-based verification of single calls cannot decide it",
- "C11": "mergeBlock and the syncer are map/closure/RPC code outside the subset; contracts were designed (DESIGN.md 5/C11) but not brought to a state where they discharge, so nothing is claimed",
- "C21": "resize planning is map/closure graph code (fragSources) outside the subset; not claimed",
  "C22": "interleavings and liveness of the resize protocol: no per-call contract expresses them (DESIGN.md section 7)",
- "C23": "the admission table is a package-level map initialised at load time and consulted through HTTP middleware closures; outside the subset, not claimed",
  "C24": "translate-store locking/restart/replication are histories over files and goroutines; not per-call",
  "C26": "the PEG parser is generated table-driven code outside the subset; formatter totality not under contract (a defect in Call.String found through the C17 bounded harness is recorded in known_findings.json)",
  "C27": "protobuf encode/decode goes through generated gogo-proto code and reflection-free but very large marshalers; field-coverage obligations not implemented",
